@@ -290,10 +290,12 @@ pub fn gen_schema(rng: &mut Rng, o: &SchemaOpts) -> GSchema {
         }
         let attrs = gen_attrs(rng, 2, &ent_names, &commons, o, 4);
         let tags = if o.tags && rng.chance(1, 3) {
-            Some(match rng.below(5) {
+            Some(match rng.below(8) {
                 0 => GType::Long,
                 1 => GType::Set(Box::new(GType::Str)),
                 2 => GType::Ent(rng.pick_clone(&ent_names)),
+                3 => GType::Set(Box::new(GType::Ent(rng.pick_clone(&ent_names)))),
+                4 => GType::Rec(vec![GAttr { name: "e".into(), ty: GType::Ent(rng.pick_clone(&ent_names)), required: true }, GAttr { name: "n".into(), ty: GType::Long, required: false }]),
                 _ => GType::Str,
             })
         } else {
